@@ -1,7 +1,10 @@
 //! One module per property.
 use crate::runner::Property;
 
+pub mod c05;
+pub mod c06;
 pub mod c12;
+pub mod c16;
 pub mod cpu;
 
 pub fn all() -> Vec<Box<dyn Property>> {
@@ -9,6 +12,9 @@ pub fn all() -> Vec<Box<dyn Property>> {
         Box::new(cpu::CpuProp(cpu::Which::C01)),
         Box::new(cpu::CpuProp(cpu::Which::C02)),
         Box::new(cpu::CpuProp(cpu::Which::C03)),
+        Box::new(c05::C05),
+        Box::new(c06::C06),
         Box::new(c12::C12),
+        Box::new(c16::C16),
     ]
 }
